@@ -628,7 +628,10 @@ func genStep(t *rapid.T, kinds []string, slot int, fld string) Step {
 			st.W = pickDest()
 		case "call":
 			st.Form = choose(t, "cform", 5, "set", 5, "app")
-			if st.Form == "set" {
+			if st.Form == "set" && kind == "us" && unbiased(t, "spreadform?", 3) == 0 {
+				st.Form = "setv"
+			}
+			if st.Form == "set" || st.Form == "setv" {
 				st.I = genIdx(t)
 				v := genElemFor(t, elemKind(kind))
 				st.V = &v
@@ -846,6 +849,19 @@ func genCase(t *rapid.T) Case {
 			fld = choose(t, "fld", 8, "D", 6, "E", 4, "B", 1, "A", 1, "C", 1, "F")
 		}
 		c.Steps = append(c.Steps, genStep(t, kinds, slot, fld))
+		// a run of stores at index len on one slice (a plain variable, or the slice field of a struct): every
+		// one of them appends, whether or not the storage still had room
+		if k := kinds[slot]; (k == "ti" || isStructKind(k)) && unbiased(t, "apprun?", 12) == 0 {
+			f := ""
+			if isStructKind(k) {
+				f = "D"
+			}
+			for r := 3 + unbiased(t, "apprunlen", 5); r > 0; r-- {
+				v := Val{K: "i", I: int64(100 + r)}
+				c.Steps = append(c.Steps, Step{Op: "write", T: slot, Fld: f, W: -1, I: &Idx{C: "len"}, V: &v})
+			}
+			c.Steps = append(c.Steps, Step{Op: "len", T: slot, Fld: f, W: -1})
+		}
 	}
 	return c
 }
